@@ -548,7 +548,8 @@ Lemma flush_for_action_inv L s k m :
   /\ (forall x, In x (inp (snd r)) <->
         In x (inp s) /\ (is_action_mapping is_action m = true -> should_absorb s k = true -> ~ In x (absd s)))
   /\ (forall m', In m' (act (snd r)) -> In m' (act s))
-  /\ rtrig (snd r) = rtrig s.
+  /\ rtrig (snd r) = rtrig s
+  /\ ((absd (snd r) = absd s /\ atrig (snd r) = atrig s) \/ (absd (snd r) = [] /\ atrig (snd r) = None)).
 Proof.
   intros I. unfold flush_for_action. destruct (is_action_mapping is_action m) eqn:Eam.
   - pose proof (release_action_mappings_inv L s I) as R1. cbn zeta in R1.
@@ -562,13 +563,14 @@ Proof.
       split; [exact I2|]. split; [eapply tr_ok_app; eassumption|].
       split; [apply all_released_app_intro; assumption|].
       split; [intros x; rewrite Hinp2, Hinp1, A1; split; [intros [H1 H2]; split; [exact H1 | intros _ _; exact H2] | intros [H1 H2]; split; [exact H1 | apply H2; reflexivity]]|].
-      split; [intros m' Hm'; apply Hact2 in Hm'; rewrite <- Hact1; tauto | congruence].
+      split; [intros m' Hm'; apply Hact2 in Hm'; rewrite <- Hact1; tauto |].
+      split; [congruence | right; split; assumption].
     + cbn [fst snd]. split; [exact I1|]. split; [exact T1|]. split; [exact Hrel1|].
       split; [intros x; rewrite Hinp1; split; [intros H; split; [exact H | intros _ Hf; discriminate] | tauto]|].
-      split; [intros m' Hm'; rewrite <- Hact1; exact Hm' | exact A3].
+      split; [intros m' Hm'; rewrite <- Hact1; exact Hm' |]. split; [exact A3 | left; split; assumption].
   - cbn [fst snd]. split; [exact I|]. split; [apply tr_ok_nil; apply seteq_refl|]. split; [reflexivity|].
     split; [intros x; split; [intros H; split; [exact H | intros Hf; discriminate] | tauto]|].
-    split; [tauto | reflexivity].
+    split; [tauto |]. split; [reflexivity | left; split; reflexivity].
 Qed.
 
 Lemma raak_set_inp s v :
@@ -589,12 +591,19 @@ Lemma add_new_mapping_inv L s k m :
   let r := add_new_mapping is_action s k m in
   Inv L (set_inp (snd r) (inp (snd r) ++ [k]))
   /\ tr_ok (held_of s) (fst (fst r)) (held_of (snd r))
-  /\ (forall x, In x (inp (snd r)) -> In x (inp s)).
+  /\ (forall x, In x (inp (snd r)) -> In x (inp s))
+  /\ (forall t, In t (m_to m) -> is_action t = true -> In (Pressed t) (fst (fst r)))
+  /\ (forall t, In t (m_to m) -> is_action t = false -> In t (mout (snd r)))
+  /\ (m_repeat m = RNormal -> forall t, In t (m_to m) -> In t (mout (snd r)))
+  /\ (m_repeat m <> RNormal -> forall x, In x (held_of (snd r)) -> is_action x = false)
+  /\ (exists A, act (snd r) = A ++ [m] /\ forall m', In m' A -> In m' (act s))
+  /\ (absd s = [] -> forall x, In x (inp s) -> In x (inp (snd r)))
+  /\ (m_abs m = [] -> absd s = [] -> atrig s = None -> absd (snd r) = [] /\ atrig (snd r) = None).
 Proof.
   intros I HmL Hwf Hk Hsup. unfold add_new_mapping.
   pose proof (flush_for_action_inv L s k m I) as R0. cbn zeta in R0.
   destruct (flush_for_action is_action s k m) as [e0 s0]. cbn [fst snd] in R0.
-  destruct R0 as [I0 [T0 [Hrel0 [Hinp0 [Hact0 Hrt0]]]]].
+  destruct R0 as [I0 [T0 [Hrel0 [Hinp0 [Hact0 [Hrt0 Haux0]]]]]].
   pose proof (consume_pass_facts s0 m (Inv_W3 L s0 I0)) as R1. cbn zeta in R1.
   destruct (consume_pass s0 m) as [e1 s1]. cbn [fst snd] in R1.
   destruct R1 as [W1 [T1 [Hrel1 [Hpass1 [Hmout1 [Hinp1 [Hact1 Haux1]]]]]]].
@@ -647,25 +656,52 @@ Proof.
   assert (T5 : tr_ok (held_of s) (e0 ++ e1 ++ e2) (held_of s5)).
   { eapply tr_ok_app; [exact T0|]. eapply tr_ok_app; [exact T1|].
     unfold held_of at 2. rewrite F2, F3. exact T2. }
+  assert (Hto5 : forall t, In t (m_to m) -> In t (mout s5)).
+  { intros t Ht. rewrite F3. apply Hmout2. right. exact Ht. }
+  assert (Hact5 : exists A, act s5 = A ++ [m] /\ forall m', In m' A -> In m' (act s)).
+  { exists (act s2). split; [exact F4|]. intros m' Hm'. rewrite Hact2, Hact1 in Hm'. apply Hact0. exact Hm'. }
+  assert (Hpr : forall t e3, In t (m_to m) -> is_action t = true -> In (Pressed t) ((e0 ++ e1 ++ e2) ++ e3)).
+  { intros t e3 Ht Ha. apply in_or_app. left. apply in_or_app. right. apply in_or_app. right. apply Hpr2; assumption. }
+  assert (Hsup5 : absd s = [] -> forall x, In x (inp s) -> In x (inp s5)).
+  { intros Ha x Hx. rewrite F1, Hinp2, Hinp1. apply Hinp0. split; [exact Hx|]. intros _ _. rewrite Ha. intros []. }
+  assert (Hclean5 : m_abs m = [] -> absd s = [] -> atrig s = None -> absd s5 = [] /\ atrig s5 = None).
+  { intros Hma Ha Ht. destruct Haux1 as [X1 [X2 _]], Haux2 as [Y1 [Y2 _]].
+    unfold s5, s4, s3. rewrite Hma. sf. cbn [fold_left].
+    destruct Haux0 as [[Z1 Z2]|[Z1 Z2]]; split; congruence. }
   destruct (m_repeat m) as [| |ks d iv].
-  - cbn [fst snd]. split; [exact I5|]. split; [exact T5|]. rewrite F1. exact Hinp_s2.
+  - cbn [fst snd]. split; [exact I5|]. split; [exact T5|]. split; [rewrite F1; exact Hinp_s2|].
+    split; [intros t Ht Ha; specialize (Hpr t [] Ht Ha); rewrite app_nil_r in Hpr; exact Hpr|].
+    split; [intros t Ht _; apply Hto5; exact Ht|]. split; [intros _; exact Hto5|].
+    split; [intros H; contradiction|]. split; [exact Hact5|]. split; [exact Hsup5 | exact Hclean5].
   - pose proof (release_all_action_keys_inv L _ I5) as R3. cbn zeta in R3.
     rewrite raak_set_inp in R3.
     destruct (release_all_action_keys is_action s5) as [e3 s6] eqn:E6. cbn [fst snd] in *.
     destruct R3 as [I6 [T6 [Hinp6 [Hact6 [Hpass6 [Hmout6 [Haux6 Hrel6]]]]]]].
     assert (Hi6 : inp s6 = inp s5) by (pose proof (raak_inp s5) as Hr; rewrite E6 in Hr; exact Hr).
-    rewrite Hi6. split; [exact I6|]. split.
-    + eapply tr_ok_app; [exact T5|]. exact T6.
-    + rewrite F1. exact Hinp_s2.
+    rewrite Hi6. split; [exact I6|]. split; [eapply tr_ok_app; [exact T5|]; exact T6|].
+    split; [rewrite F1; exact Hinp_s2|]. split; [intros t Ht Ha; apply Hpr; assumption|].
+    sf. split; [|split; [discriminate|split]].
+    + intros t Ht Ha. rewrite Hmout6. apply filter_In. split; [apply Hto5; exact Ht | rewrite Ha; reflexivity].
+    + intros _ x Hx. rewrite Hpass6, Hmout6 in Hx. apply in_app_or in Hx.
+      destruct Hx as [Hx|Hx]; apply filter_In in Hx; destruct Hx as [_ Hx]; apply negb_true_iff in Hx; exact Hx.
+    + rewrite Hact6. split; [exact Hact5|]. destruct Haux6 as [U1 [U2 _]]. sf.
+      split; [intros Ha x Hx; apply Hsup5; assumption|].
+      intros Hma Ha Ht. destruct (Hclean5 Hma Ha Ht) as [C1 C2]. split; congruence.
   - pose proof (release_all_action_keys_inv L _ I5) as R3. cbn zeta in R3.
     rewrite raak_set_inp in R3.
     destruct (release_all_action_keys is_action s5) as [e3 s6] eqn:E6. cbn [fst snd] in *.
     destruct R3 as [I6 [T6 [Hinp6 [Hact6 [Hpass6 [Hmout6 [Haux6 Hrel6]]]]]]].
     assert (Hi6 : inp s6 = inp s5) by (pose proof (raak_inp s5) as Hr; rewrite E6 in Hr; exact Hr).
-    change (inp (set_rtrig s6 (Some k))) with (inp s6). rewrite Hi6. split; [|split].
-    + constructor; sf; apply I6.
-    + eapply tr_ok_app; [exact T5|]. exact T6.
-    + rewrite F1. exact Hinp_s2.
+    change (inp (set_rtrig s6 (Some k))) with (inp s6). rewrite Hi6.
+    split; [constructor; sf; apply I6|]. split; [eapply tr_ok_app; [exact T5|]; exact T6|].
+    split; [rewrite F1; exact Hinp_s2|]. split; [intros t Ht Ha; apply Hpr; assumption|].
+    sf. split; [|split; [discriminate|split]].
+    + intros t Ht Ha. rewrite Hmout6. apply filter_In. split; [apply Hto5; exact Ht | rewrite Ha; reflexivity].
+    + intros _ x Hx. rewrite Hpass6, Hmout6 in Hx. apply in_app_or in Hx.
+      destruct Hx as [Hx|Hx]; apply filter_In in Hx; destruct Hx as [_ Hx]; apply negb_true_iff in Hx; exact Hx.
+    + rewrite Hact6. split; [exact Hact5|]. destruct Haux6 as [U1 [U2 _]]. sf.
+      split; [intros Ha x Hx; apply Hsup5; assumption|].
+      intros Hma Ha Ht. destruct (Hclean5 Hma Ha Ht) as [C1 C2]. split; congruence.
 Qed.
 
 (* ---------- newly_press ---------- *)
@@ -687,13 +723,18 @@ Lemma newly_press_inv L s k :
   let r := newly_press is_action L s k in
   Inv L (snd r) /\ tr_ok (held_of s) (fst (fst r)) (held_of (snd r))
   /\ (forall x, In x (inp (snd r)) -> In x (inp s) \/ x = k)
-  /\ In k (inp (snd r)).
+  /\ In k (inp (snd r))
+  /\ (absd s = [] -> forall x, In x (inp s) -> In x (inp (snd r)))
+  /\ ((forall m, In m L -> m_abs m = []) -> absd s = [] -> atrig s = None ->
+      absd (snd r) = [] /\ atrig (snd r) = None).
 Proof.
   intros Hwf I Hk. unfold newly_press. cbn zeta.
   set (s1 := set_rtrig (set_absd s (remove_all k (absd s))) None).
   assert (I1 : Inv L s1) by (constructor; unfold s1; sf; apply I).
   assert (Hh1 : held_of s1 = held_of s) by reflexivity.
   assert (Hi1 : inp s1 = inp s) by reflexivity.
+  assert (Ha1 : absd s = [] -> absd s1 = []) by (intros Ha; unfold s1; sf; rewrite Ha; reflexivity).
+  assert (Ht1 : atrig s1 = atrig s) by reflexivity.
   destruct (find _ (rev (group_of L k))) as [m|] eqn:Ef.
   - apply find_some in Ef. destruct Ef as [Hm Hsup]. apply in_rev in Hm. apply group_of_In in Hm.
     destruct Hm as [HmL Hfin].
@@ -705,18 +746,24 @@ Proof.
       intros _ Hsa. rewrite Hsa in Hs2. apply negb_true_iff, mem_false in Hs2. exact Hs2. }
     pose proof (add_new_mapping_inv L s1 k m I1 HmL (Hwf m HmL) Hk Hsup') as R. cbn zeta in R.
     destruct (add_new_mapping is_action s1 k m) as [[evs rep] s2]. cbn [fst snd] in *.
-    destruct R as [I2 [T2 Hinp2]].
-    split; [exact I2|]. split; [exact T2|]. sf. split.
+    destruct R as [I2 [T2 [Hinp2 [_ [_ [_ [_ [_ [Hsup2 Hclean2]]]]]]]]].
+    split; [exact I2|]. split; [exact T2|]. sf. split; [|split; [|split]].
     + intros x Hx. apply in_app_or in Hx. destruct Hx as [Hx|[Hx|[]]]; [left; apply Hinp2; exact Hx | right; symmetry; exact Hx].
     + apply in_or_app. right. left. reflexivity.
+    + intros Ha x Hx. apply in_or_app. left. apply (Hsup2 (Ha1 Ha)). exact Hx.
+    + intros HL Ha Ht. apply (Hclean2 (HL m HmL) (Ha1 Ha)). congruence.
   - destruct (existsb (mentions k) (act s1)) eqn:Emen.
-    { cbn [fst snd]. split; [apply Inv_push_inp; assumption|]. split; [apply tr_ok_nil; apply seteq_refl|]. sf. split.
+    { cbn [fst snd]. split; [apply Inv_push_inp; assumption|]. split; [apply tr_ok_nil; apply seteq_refl|]. sf. split; [|split; [|split]].
       - intros x Hx. apply in_app_or in Hx. destruct Hx as [Hx|[Hx|[]]]; [left; exact Hx | right; symmetry; exact Hx].
-      - apply in_or_app. right. left. reflexivity. }
+      - apply in_or_app. right. left. reflexivity.
+      - intros _ x Hx. apply in_or_app. left. exact Hx.
+      - intros _ Ha Ht. split; [apply Ha1; exact Ha | congruence]. }
     destruct (mem k (pass s1)) eqn:Epass.
-    { cbn [fst snd]. split; [apply Inv_push_inp; assumption|]. split; [apply tr_ok_nil; apply seteq_refl|]. sf. split.
+    { cbn [fst snd]. split; [apply Inv_push_inp; assumption|]. split; [apply tr_ok_nil; apply seteq_refl|]. sf. split; [|split; [|split]].
       - intros x Hx. apply in_app_or in Hx. destruct Hx as [Hx|[Hx|[]]]; [left; exact Hx | right; symmetry; exact Hx].
-      - apply in_or_app. right. left. reflexivity. }
+      - apply in_or_app. right. left. reflexivity.
+      - intros _ x Hx. apply in_or_app. left. exact Hx.
+      - intros _ Ha Ht. split; [apply Ha1; exact Ha | congruence]. }
     (* pass-through *)
     assert (Hflush : exists e1 s2,
        (if is_action k then
@@ -725,20 +772,24 @@ Proof.
         else ([], s1)) = (e1, s2)
        /\ Inv L s2 /\ tr_ok (held_of s1) e1 (held_of s2)
        /\ (forall x, In x (inp s2) -> In x (inp s1))
-       /\ (forall m, In m (act s2) -> In m (act s1))).
+       /\ (forall m, In m (act s2) -> In m (act s1))
+       /\ (absd s1 = [] -> forall x, In x (inp s1) -> In x (inp s2))
+       /\ (absd s1 = [] -> atrig s1 = None -> absd s2 = [] /\ atrig s2 = None)).
     { destruct (is_action k).
       - pose proof (release_action_mappings_inv L s1 I1) as Ra. cbn zeta in Ra.
         destruct (release_action_mappings is_action s1) as [ea sa]. cbn [fst snd] in Ra.
-        destruct Ra as [Ia [Ta [Hinpa [Hacta _]]]].
+        destruct Ra as [Ia [Ta [Hinpa [Hacta [_ [_ [[Aa1 _] _]]]]]]].
         pose proof (release_absorbed_keys_inv L sa Ia) as Rb. cbn zeta in Rb.
         destruct (release_absorbed_keys sa) as [eb sb]. cbn [fst snd] in Rb.
-        destruct Rb as [Ib [Tb [_ [Hinpb [Hactb _]]]]].
+        destruct Rb as [Ib [Tb [_ [Hinpb [Hactb [Bb1 [Bb2 _]]]]]]].
         exists (ea ++ eb), sb. split; [reflexivity|]. split; [exact Ib|].
-        split; [eapply tr_ok_app; eassumption|]. split.
+        split; [eapply tr_ok_app; eassumption|]. split; [|split; [|split]].
         + intros x Hx. apply Hinpb in Hx. rewrite <- Hinpa. tauto.
         + intros m Hm. apply Hactb in Hm. rewrite <- Hacta. tauto.
+        + intros Ha x Hx. apply Hinpb. rewrite Hinpa, Aa1, Ha. split; [exact Hx | intros []].
+        + intros _ _. split; assumption.
       - exists [], s1. split; [reflexivity|]. split; [exact I1|]. split; [apply tr_ok_nil; apply seteq_refl|]. tauto. }
-    destruct Hflush as [e1 [s2 [Eq [I2 [T2 [Hinp2 Hact2]]]]]]. rewrite Eq. cbn [fst snd].
+    destruct Hflush as [e1 [s2 [Eq [I2 [T2 [Hinp2 [Hact2 [Hsup2 Hclean2]]]]]]]]. rewrite Eq. cbn [fst snd].
     assert (Hk2 : ~ In k (inp s2)) by (intro H; apply Hk; rewrite <- Hi1; apply Hinp2; exact H).
     assert (Hnm : forall m, In m (act s2) -> ~ In k (m_from m) /\ ~ In k (m_to m)).
     { intros m Hm. apply Hact2 in Hm.
@@ -786,7 +837,9 @@ Proof.
       * unfold held_of. intros x. rewrite !in_app_iff. cbn. tauto.
       * unfold held_of. rewrite in_app_iff. tauto.
     + sf. intros x Hx. apply in_app_or in Hx. destruct Hx as [Hx|[Hx|[]]]; [left; apply Hinp2; exact Hx | right; symmetry; exact Hx].
-    + sf. apply in_or_app. right. left. reflexivity.
+    + sf. split; [apply in_or_app; right; left; reflexivity|]. split.
+      * intros Ha x Hx. apply in_or_app. left. apply (Hsup2 (Ha1 Ha)). exact Hx.
+      * intros _ Ha Ht. apply Hclean2; [apply Ha1; exact Ha | congruence].
 Qed.
 
 (* ---------- step, release_all ---------- *)
@@ -795,23 +848,34 @@ Lemma step_inv L s e :
   wf_layout L -> Inv L s ->
   let r := step is_action L s e in
   Inv L (snd r) /\ tr_ok (held_of s) (fst (fst r)) (held_of (snd r))
-  /\ (forall x, In x (inp (snd r)) -> In x (apply_ev (inp s) e)).
+  /\ (forall x, In x (inp (snd r)) -> In x (apply_ev (inp s) e))
+  /\ (absd s = [] -> forall x, In x (apply_ev (inp s) e) -> In x (inp (snd r)))
+  /\ ((forall m, In m L -> m_abs m = []) -> absd s = [] -> atrig s = None ->
+      absd (snd r) = [] /\ atrig (snd r) = None).
 Proof.
   intros Hwf I. destruct e as [k|k]; cbn [step].
   - destruct (mem k (inp s)) eqn:Ek.
     + cbn [fst snd]. split; [exact I|]. split; [apply tr_ok_nil; apply seteq_refl|].
-      intros x Hx. apply In_apply_ev_press. left. exact Hx.
+      split; [intros x Hx; apply In_apply_ev_press; left; exact Hx|].
+      split; [|intros _ Ha Ht; split; assumption].
+      intros _ x Hx. apply In_apply_ev_press in Hx. destruct Hx as [Hx|Hx]; [exact Hx | subst; apply mem_In; exact Ek].
     + apply mem_false in Ek. pose proof (newly_press_inv L s k Hwf I Ek) as R. cbn zeta in R.
-      destruct R as [I' [T [Hinp _]]]. split; [exact I'|]. split; [exact T|].
-      intros x Hx. apply In_apply_ev_press. apply Hinp. exact Hx.
+      destruct R as [I' [T [Hinp [Hk' [Hsup Hclean]]]]]. split; [exact I'|]. split; [exact T|].
+      split; [intros x Hx; apply In_apply_ev_press; apply Hinp; exact Hx|].
+      split; [|exact Hclean].
+      intros Ha x Hx. apply In_apply_ev_press in Hx. destruct Hx as [Hx|Hx]; [apply Hsup; assumption | subst; exact Hk'].
   - destruct (mem k (inp s)) eqn:Ek.
     + rewrite newly_release_core. cbn [fst snd].
       pose proof (release_core_inv L k s I) as R. cbn zeta in R.
-      destruct R as [I' [T [Hinp _]]]. split; [exact I'|]. split; [exact T|].
-      intros x Hx. rewrite Hinp in Hx. apply In_apply_ev_release. apply In_remove_all. exact Hx.
+      destruct R as [I' [T [Hinp [_ [[X1 [X2 _]] _]]]]]. split; [exact I'|]. split; [exact T|].
+      split; [intros x Hx; rewrite Hinp in Hx; apply In_apply_ev_release; apply In_remove_all; exact Hx|].
+      split; [|intros _ Ha Ht; split; congruence].
+      intros _ x Hx. rewrite Hinp. apply In_remove_all. apply In_apply_ev_release. exact Hx.
     + cbn [fst snd]. split; [exact I|]. split; [apply tr_ok_nil; apply seteq_refl|].
-      intros x Hx. apply In_apply_ev_release. split; [exact Hx|]. intro E. subst.
-      apply mem_false in Ek. contradiction.
+      split; [|split; [|intros _ Ha Ht; split; assumption]].
+      * intros x Hx. apply In_apply_ev_release. split; [exact Hx|]. intro E. subst.
+        apply mem_false in Ek. contradiction.
+      * intros _ x Hx. apply In_apply_ev_release in Hx. tauto.
 Qed.
 
 Lemma step_released_only L s k :
